@@ -33,6 +33,6 @@ def main(chk):
 MANIFEST = {
     'category': 'proof',
     'technique': 'Coq proofs over struct declarations as data (induction on the embedding tree) on an executable model of rget/resolve/init, the name trie, isEmptyValue (safe and unsafe) and the kStruct loops + vm_compute correspondence against TypeInfos.get through a hook on reflect.StructOf-generated declarations + direct oracles on all five formats',
-    'text': 'see evidence',
-    'note': 'see evidence',
+    'text': 'For ALL struct declarations (finite embedding trees, by value or pointer, any codec/json tags): C16_fields resolve = documented field list (same names, options, paths, order) when no type embeds itself; C16_resolve sequential resolve/init = "shallowest wins, first declared wins a tie"; C16_names_unique; C16_lookup / C16_lookup_unknown (trie search finds exactly the field); C16_encode kStruct/kStructSimple = documented map/array for every field codec, given the emptiness test agrees with the docs; C16_omit (default build, RecursiveEmptyCheck off) on plain values, C16_omit_refuted (F05-1 and its codec.safe mirror); C16_sopts_own, C16_sopts_refuted (F16-4: promoted _struct); C16_decode / C16_decode_unknown / C16_decode_array_extra (unknown key => error iff ErrorIfNoField). Tied by TypeInfos.get / siForEncName / isEmptyValue through a hook on reflect.StructOf-generated declarations + fixed corpus, and by struct-vs-map oracles over five formats in both builds.',
+    'note': 'Repaired through the check: F16-2 (third inlining of a type dropped), F16-3 (empty unknown key not rejected), F16-5 (json html chars in field names). Recorded: F05-1/F05-1s, F16-4. Not proved in Coq: untouched-fields lemma for decode (oracle + correspondence only), _struct lookup when no struct declares it (BFS fuel lemma), RecursiveEmptyCheck emptiness vs docs (docs say "might"), float key types, recursive type declarations.',
 }
